@@ -143,8 +143,10 @@ def probe_scripts():
     ]
 
 
-def run_probe(world, ws, pidx):
-    """Second connection on `ws` inside `world`: returns the observation."""
+def run_probe(world, ws, pidx, finalise_late=None):
+    """Second connection on `ws` inside `world`: returns the observation.
+    finalise_late: a one-element list holding the abandoned iterator of the first connection; it is dropped only after the
+    second connect() has been called (the `events = ws.connect()` re-binding pattern)."""
     name, ext, frames, mode, send = probe_scripts()[pidx]
     blob = b''.join(f.encode() for f in frames)
     n0_events, n0_conns, t_start = len(world.events), len(world.conns), world.clock.t
@@ -180,6 +182,9 @@ def run_probe(world, ws, pidx):
             W.safe_call(w, 'send_text', wsx.send_text, REPEAT.decode())
             W.safe_call(w, 'send_text', wsx.send_text, REPEAT.decode())
     gen = ws.connect(poll=5, ping_rate=0, close_timeout=10)
+    if finalise_late:
+        finalise_late.pop()
+        gc.collect()
     first = next(gen)
     e = world.note_event(first)
     # O1 is judged on the per-connection state object (what the property enumerates: parser, fragments, UTF-8, compression,
@@ -228,7 +233,7 @@ class C17(F.Check):
         'state equality is judged on lv.canon\'s walk of the WebSocket object and of lomond\'s module/class-level containers; the key field is compared separately',
     ]
     expect_sites = ('first:hs-partial', 'first:partial-frame', 'first:frag-text', 'first:comp-frag', 'first:comp-garbage', 'first:hs-404',
-                    'first:hs-oversize', 'first:close-1000', 'abandoned', 'connect-failed', 'probe:compressed', 'probe:silent')
+                    'first:hs-oversize', 'first:close-1000', 'abandoned', 'late-finalise', 'connect-failed', 'probe:compressed', 'probe:silent')
 
     def rule(self, tier):
         return ('first connection: server alphabet of 18 steps to depth %d, <= %d application action(s) {close, send, abandon} at any event, or refused/unresolvable; '
@@ -243,6 +248,7 @@ class C17(F.Check):
         jobs = []
         for p in range(len(probe_scripts())):
             jobs.append({'cfg': {'depth': d, 'probe': p, 'max_dev': 2 if tier == 'thorough' else 1, 'fail': None}})
+            jobs.append({'cfg': {'depth': d - 1, 'probe': p, 'max_dev': 1, 'fail': None, 'late_finalise': True}})
             for fail in ('refused', 'resolve'):
                 jobs.append({'cfg': {'depth': 1, 'probe': p, 'max_dev': 1, 'fail': fail}})
         return jobs
@@ -279,15 +285,16 @@ class C17(F.Check):
                 truncated = True
             if truncated:
                 return env, problems, True
-            if cfg.get('keep_generator'):
-                pass
-            else:
-                del gen
-                gc.collect()
+            late = None
+            if cfg.get('late_finalise') and 'abandoned' in env.sites:
+                late = [gen]
+                env.sites.add('late-finalise')
+            del gen
+            gc.collect()
             world.chooser = None
             pidx = cfg['probe']
             env.sites.add('probe:' + probe_scripts()[pidx][0])
-            obs = run_probe(world, ws, pidx)
+            obs = run_probe(world, ws, pidx, late)
         ref = fresh_observation(pidx)
         # ---- O1: state at Connecting
         if obs['snap'] != ref['snap']:
@@ -316,7 +323,8 @@ class C17(F.Check):
             res.covered |= env.sites
             res.outcomes[repr((tuple(env.trace), cfg['probe']))] += 1
             for kind, msg in problems:
-                res.violate('C17:%s:%s' % (kind, probe_scripts()[cfg['probe']][0]), msg, {'cfg': cfg, 'choices': list(ch.taken)})
+                res.violate('C17:%s:%s%s' % (kind, probe_scripts()[cfg['probe']][0], ':late-finalise' if 'late-finalise' in env.sites else ''), msg,
+                            {'cfg': cfg, 'choices': list(ch.taken)})
             if res.executions % 211 == 5 and len(res.samples) < 2:
                 res.samples.append({'history': env.trace, 'probe': probe_scripts()[cfg['probe']][0]})
         ex = explore.Explorer(lambda c, e: self.one_run(cfg, c, e), check, dev_kinds=('app',), max_dev=cfg['max_dev'], cache=True)
@@ -334,7 +342,8 @@ class C17(F.Check):
             print('probe:', probe_scripts()[case['cfg']['probe']][0])
             for k, m in problems:
                 print('  ', k, m[:600])
-        return [F.Violation('C17:%s:%s' % (k, probe_scripts()[case['cfg']['probe']][0]), m, case) for k, m in problems]
+        return [F.Violation('C17:%s:%s%s' % (k, probe_scripts()[case['cfg']['probe']][0], ':late-finalise' if 'late-finalise' in env.sites else ''), m, case)
+                for k, m in problems]
 
 
 def _s(x):
